@@ -103,7 +103,7 @@ def histories(ctx):
     quick = ctx.tier == "quick"
     hs = []
     kinds = ["both", "start0", "cc111", "start-only", "end-only", "none", "reversed", "dup-start", "dup-end", "start-at-end", "same-tick-tracks"]
-    for i in range(18 if quick else 700):
+    for i in range(66 if quick else 700):
         kind = kinds[i % len(kinds)]
         song, start, end, valid = loop_song(rng, kind)
         img = song.encode()
